@@ -291,7 +291,7 @@ def mutate_smuggling(rng, s):
     elif cls == "dup-cl":
         ins(b"Content-Length: 3"); ins(rng.choice([b"Content-Length: 3", b"content-length: 4"]))
     elif cls == "nondec-cl":
-        ins(b"Content-Length: " + rng.choice([b"+5", b"-5", b"0x5", b"5,5", b"", b"5 5", b"\xd9\xa5", b"5.0", b"1e1", b" 5", b"\xef\xbc\x95", b"1" * 4301, b"0" * 4400 + b"3", b"0" * 4290 + b"3"]))
+        ins(b"Content-Length: " + rng.choice(BAD_CONTENT_LENGTHS))
     elif cls == "te-notfinal":
         ins(b"Transfer-Encoding: " + rng.choice([b"chunked, gzip", b"gzip", b"chunked,", b"", b"xchunked", b"chunked;q=1", b"\xc4\xb0chunked"]))
     elif cls == "te-twice":
@@ -594,6 +594,22 @@ def limit_edge_streams(rng, lim):
             out.append((s, pos, delta, cuts))
     return out
 
+
+
+# every value here is outside 1*DIGIT: a request carrying it must be rejected (RFC 9110 8.6 allows a recipient to
+# accept a list of identical members; aiohttp does not, and the strict reading does not either)
+BAD_CONTENT_LENGTHS = [b"+5", b"-5", b"0x5", b"5,5", b"5, 5", b"05, 05", b"0, 0", b"5 ,5", b"5,", b",5", b"", b"5 5",
+                       b"\xd9\xa5", b"5.0", b"1e1", b" 5", b"\xef\xbc\x95", b"1" * 4301, b"0" * 4400 + b"3", b"0" * 4290 + b"3",
+                       b"5;q=1", b"\"5\"", b"5\x0b", b"\x0c5"]
+
+
+def bad_content_length_streams():
+    """Directed: each value of BAD_CONTENT_LENGTHS in a POST followed by a pipelined request (run on every check)."""
+    out = []
+    for v in BAD_CONTENT_LENGTHS:
+        for nxt in (b"", b"GET /next HTTP/1.1\r\nHost: n\r\n\r\n"):
+            out.append(b"POST /cl HTTP/1.1\r\nHost: h\r\nContent-Length: " + v + b"\r\n\r\nhello" + nxt)
+    return out
 
 
 SYSTEMATIC_BASES = [
